@@ -186,7 +186,7 @@ def run(index, tier="quick", seed=0) -> Result:
             # every face line lists all its indices
             joins = [p for p in _walk(skel) if isinstance(p, Join) and p.over == "face"]
             if not joins:
-                res.bad("IDX-1", f"{name}:facelist", where, f"io.{name}: face lines are not a join over all indices of the face")
+                raise AnalysisError(f"IDX-1: io.{name} writes its face lines in a form the string builder does not recognise as a join over the face's indices")
         # ------------------------------------------------ PREC-1 declared scalar type
         if name == "to_ply":
             types = re.findall(r"property (\w+) [xyz]\n", text)
@@ -227,7 +227,7 @@ def run(index, tier="quick", seed=0) -> Result:
             # the shift to positive coordinates must not reach the caller's shape (effect analysis of C16 Q-4)
             from .c16 import _check_query
             from ..values import ObjRef, Val, TOP
-            tmp = Result("C16", "")
+            tmp = Result("C16", "", register=False)
             for cname in ("Polyhedron", "ConvexPolyhedron"):
                 c = index.cls(cname)
                 _check_query(tmp, index, c, f"io.to_stl[{cname}]", fn, None, set(), {"_vertices", "_faces", "_equations"},
